@@ -148,7 +148,7 @@ def op_geo(case, seed):
     nlen0 = [ref.node_link_lengths(A0, Dl, v) for v in range(n)]
     dp0 = ref.degree_pairs(A0, deg0)
 
-    def run_fn(cr):
+    def run_api(cr):
         import pyunicorn.core._ext.numerics as ext
         net = make(A0.copy())
         old = ext.rd
@@ -161,6 +161,38 @@ def op_geo(case, seed):
             return _guard(f)
         finally:
             ext.rd = old
+
+    kernel_args = {}
+
+    def run_kernel(cr):
+        # the compiled kernel on the arrays the method hands to it (the
+        # method itself is exercised by the "api" level of the same case
+        # list): 50x cheaper per execution, hence deeper bounds
+        import pyunicorn.core._ext.numerics as ext
+        from pyunicorn.core._ext.types import to_cy, ADJ, FIELD, NODE, DEGREE
+        if not kernel_args:
+            net = make(A0.copy())
+            kernel_args["edges"] = np.array(net.graph.get_edgelist())
+            kernel_args["degree"] = np.array(net.degree())
+        A = to_cy(A0.copy(), ADJ)
+        Dk = to_cy(D.copy(), FIELD)
+        edges = to_cy(kernel_args["edges"].copy(), NODE)
+        old = ext.rd
+        ext.rd = ref.KernelRd(cr, seed, E)
+        try:
+            def f():
+                fn = getattr(ext, "_randomly_rewire_geomodel_" + model)
+                if model == "III":
+                    fn(it, eps, A, Dk, E, edges,
+                       to_cy(kernel_args["degree"], DEGREE))
+                else:
+                    fn(it, eps, A, Dk, E, edges)
+                return ("ok", np.array(A, dtype=int), n)
+            return _guard(f)
+        finally:
+            ext.rd = old
+
+    run_fn = run_kernel if case.get("level") == "kernel" else run_api
 
     def judge(o):
         if o[0] == "exc":
@@ -572,22 +604,28 @@ def run(ctx):
     ctx.explore("op", cases, chunk=4, desc="Network.randomly_rewire")
     # 2. geographical models
     cases = []
+    api = dict(bmax=2, budget=300 if thorough else 150)
+    deep = dict(bmax=4 if thorough else 3,
+                budget=12000 if thorough else 4000)
     for g in g5 + g6:
         six = g[0] == 6
         for model in ("I", "II", "III"):
             for pts in ("line", "lattice", "general"):
                 for eps in (0.5, 100.0):
                     for it in (its if (thorough and not six) else (1, 2)):
-                        cases.append(mk("geo", g, {
-                            "model": model, "pts": pts, "eps": eps,
-                            "it": it}, own6 if six else own))
+                        p = {"model": model, "pts": pts, "eps": eps, "it": it}
+                        cases.append(mk("geo", g, dict(p, level="api"), api))
+                        cases.append(mk("geo", g, dict(p, level="kernel"),
+                                        deep))
             cases.append(mk("geo", g, {"model": model, "pts": "line",
-                                       "eps": 0.0, "it": 1},
+                                       "eps": 0.0, "it": 1, "level": "api"},
                             dict(bmax=1, budget=1)))
             cases.append(mk("geo", g, {"model": model, "pts": "general",
-                                       "eps": 100.0, "it": 1, "cls": "geo"},
-                            own))
-    ctx.explore("op", cases, chunk=2, desc="randomly_rewire_geomodel_I/II/III")
+                                       "eps": 100.0, "it": 1, "cls": "geo",
+                                       "level": "api"}, api))
+    ctx.explore("op", cases, chunk=2, desc="randomly_rewire_geomodel_I/II/III"
+                " (method: shallow; compiled kernel on the method's "
+                "arguments: deep)")
     # 3. cross-link rewiring
     cases = []
     for g in g5 + g6:
@@ -680,9 +718,13 @@ def run(ctx):
             "all 60" if thorough else "15 of the 60",
             "; both orders" if thorough else ""))
     ctx.notes.update({
-        "bmax": {"own kernels": own["bmax"], "igraph": ig["bmax"]},
+        "bmax": {"own kernels": own["bmax"], "igraph": ig["bmax"],
+                 "geomodel via method": api["bmax"],
+                 "geomodel kernel direct": deep["bmax"]},
         "per_case_budget": {"5 nodes": own["budget"],
-                            "6 nodes": own6["budget"], "igraph": ig["budget"]},
+                            "6 nodes": own6["budget"], "igraph": ig["budget"],
+                            "geomodel via method": api["budget"],
+                            "geomodel kernel direct": deep["budget"]},
         "horizon": {"kernel draws": KERNEL_HORIZON,
                     "igraph draws": IGRAPH_HORIZON},
         "bound_per_case": "see stats.cases_at_bound_*"})
